@@ -113,6 +113,14 @@ BigLemmas ==
             /\ Len(l) = ClassCount(cl, 1, 0) + 1 /\ l[pos] = 100
             /\ Sum(l) = BigSumClosed(cl, 100)
             /\ \A k \in 1..Len(l) : CumSums(l)[k] = BigPrefixClosed(cl, 100, pos, k)
+      \* the scaled form with xe = 6 is the unscaled one (dominant element = Unit)
+      /\ \A cl \in SmallClasses : \A pos \in 1..(ClassCount(cl, 1, 0) + 1) :
+            LET c3 == [i \in 1..Len(cl) |-> <<cl[i][1], 6, cl[i][2]>>] IN
+            /\ ScaledCount(c3, 1, 0) = ClassCount(cl, 1, 0)
+            /\ Unit + ScaledTotal(c3, 1, 0) = BigSumClosed(cl, Unit)
+            /\ \A k \in 1..(ClassCount(cl, 1, 0) + 1) : ScaledPrefixClosed(c3, pos, k) = BigPrefixClosed(cl, Unit, pos, k)
+      \* and a coarser xe only divides: 7 copies of 25e-8 are 1 unit (1.75 truncated)
+      /\ ScaledTotal(<< <<25, 8, 7>> >>, 1, 0) = 1 /\ ScaledPrefixClosed(<< <<25, 8, 7>> >>, 3, 8) = Unit + 1
       /\ \A k \in {3, 5, 7} : \A kp \in 0..(k - 1) : \A h \in 0..k : \A x1 \in {0, 2} : \A x2 \in {1, 3} :
             LET ys == PeakFloorSamples(k, kp, h, x1, x2, 50) IN
             /\ WSum(ys, TrapzW(k), 1, 0) = PeakFloorClosed("trapz", k, kp, h, x1, x2, 50)
